@@ -358,6 +358,14 @@ class Env:
                 v = self._field_of_construct(base, t['name'])
                 if v is not None:
                     return v
+            # field of an aggregate built from a braced list (`return {fits, offset};` ... `.offset`): the element at the field's position
+            if isinstance(base, dict) and base.get('k') == 'initlist' and getattr(self, 'db', None) is not None:
+                crec = self.db.classes.get(base.get('type', '').replace('const ', '').strip())
+                if crec is not None and not crec.get('bases'):
+                    names = [f['name'] for f in crec.get('fields', []) if not f.get('static')]
+                    elts = base.get('elts', [])
+                    if t['name'] in names and names.index(t['name']) < len(elts):
+                        return elts[names.index(t['name'])]
         out = {}
         for kk, vv in t.items():
             if isinstance(vv, dict):
@@ -465,6 +473,13 @@ def canon(t, roles=None):
         if op in ('>', '>='):
             op = FLIP[op]
             l, r = r, l
+        # neutral elements: x + 0, 0 + x, x - 0, x * 1, 1 * x are x (a fence of size 0, a ternary resolved to 0)
+        if op == '+' and '0' in (l, r):
+            return r if l == '0' else l
+        if op == '-' and r == '0':
+            return l
+        if op == '*' and '1' in (l, r):
+            return r if l == '1' else l
         if op in COMM and l > r:
             l, r = r, l
         if op == '[]':
